@@ -421,7 +421,7 @@ func report(o *checkOpts, out *checkOutcome) int {
 			emit(sd.Name, map[string]any{"kind": "bounded-standin", "bound": sd.Bound, "output": sd.Output, "failing_input": sd.Failing}, tail)
 		}
 	}
-	if !o.noEvidence {
+	if !o.noEvidence && os.Getenv("GOVC_NO_EVIDENCE") == "" {
 		writeEvidence(o, out, viol, sortedKeys(seenKnown))
 	}
 	if !o.quiet {
